@@ -37,7 +37,9 @@ MANIFEST = dict(
          "monotone-threshold guard), compared with the implementation, not translated. Not modelled: Dataset/dask inputs, "
          "the dimension bookkeeping of gather_dimensions (C01), threshold_dim name clashes. Float rounding: scores that are "
          "exactly 0 in rationals may be ~1e-17 in floats (within the 1e-9 tolerance).",
-    technique="Lean 4 theorems over translator-regenerated definitions + differential correspondence + property oracle",
+    technique="Lean 4 theorems over translator-regenerated definitions + differential correspondence + property oracle "
+              "(when the source leaves the translatable subset the generator substitutes the hand-written fallback model "
+              "tools/gen/_fallback_*.lean for that definition, records it as inapplicable, and the correspondence carries it)",
     design="6/C13")
 RULE = ("ensembles of 1-5 members with 50 % of member values and 40 % of observations placed exactly on a threshold, NaN members "
         "(incl. all-NaN and single valid member), 1-3 thresholds, 4 operators x fair on/off/default x weights; distinct = "
